@@ -324,7 +324,8 @@ def run_scenario(sc):
             if p is None:
                 return
             count[p] = count.get(p, 0) + 1
-            if inj and not injected["done"] and p == inj["p"] and count[p] == inj["at"]:
+            if inj and not injected["done"] and p == inj["p"] and (
+                    count[p] == inj.get("at") or (inj.get("after_kind") == kind)):
                 injected["done"] = True
                 net.ev("inject_scheduled", p=p, after=kind, index=count[p])
                 loop.call_soon(do_inject)
